@@ -471,8 +471,31 @@ def observer_summary(ctx, rid, f, path, key, value, kind):
                 if peel(x) == c.result_term() and is_call(peel(y), ["slice::len", "Vec::len"]) and peel(peel(y)[2][0], transparent=["Deref::deref"]) == peel(scan["bounds"]):
                     sw, pp_false = [bi], be[2]
             si_ = b.switch_info(bi)
-            if si_ and si_[0][0] == "discr" and is_call(peel(si_[0][1], transparent=[]), ["slice::get", "Vec::get"]) and peel(peel(si_[0][1], transparent=[])[2][1]) == c.result_term() and not sw:
+            if si_ and si_[0][0] == "discr" and is_call(peel(si_[0][1], transparent=[]), ["slice::get", "Vec::get", "slice::get_mut", "Vec::get_mut"]) and peel(peel(si_[0][1], transparent=[])[2][1]) == c.result_term() and not sw:
                 sw, pp_false = [bi], ([t for v, t in si_[1] if v == 0] or [si_[2]])[0]
+    then_some_var = None
+    if scan.get("kind") == "partition_point" and not sw:
+        # `(i < bounds.len()).then_some(i)` (joined with the `None` of a NaN guard): Some exactly when i is a bucket index, and then it carries i
+        for bi in b.reachable_blocks():
+            si_ = b.switch_info(bi)
+            if not (si_ and si_[0][0] == "discr"):
+                continue
+            d_ = peel(si_[0][1], transparent=[])
+            alts_ = b.var_alts(d_[1]) if (isinstance(d_, tuple) and len(d_) == 2 and d_[0] == "var") else [d_]
+            ts = [a for a in alts_ if is_call(peel(a, transparent=[]), "bool::then_some")]
+            rest_ = [a for a in alts_ if a not in ts]
+            if len(ts) != 1 or not all(isinstance(a, tuple) and a and a[0] == "agg" and a[2].endswith("Option::None") for a in rest_):
+                continue
+            t_ = peel(ts[0], transparent=[])
+            cnd_, pay_ = t_[2][0], t_[2][1]
+            if cnd_[0] == "binop" and cnd_[1] == "Lt" and peel(cnd_[2]) == c.result_term() and is_call(peel(cnd_[3]), ["slice::len", "Vec::len"]) \
+                    and peel(peel(cnd_[3])[2][0], transparent=["Deref::deref"]) == peel(scan["bounds"]) and peel(pay_) == c.result_term():
+                # with a NaN guard: its edge must lead to the None, not to the search result
+                if scan.get("nan_guard") is None or t_[3] not in b.reach(scan["nan_guard"][1]):
+                    sw, then_some_var = [bi], d_
+    if scan.get("nan_guard") is not None and then_some_var is None:
+        ctx.ob(rid, key + "|bucket-inc-in-some-arm", False, "a NaN observation is diverted before the search, but what it selects instead could not be established", site=c.span)
+        return None
     if len(sw) != 1:
         ctx.ob(rid, key + "|bucket-inc-in-some-arm", False, "the result of the scan must be tested exactly once (found %d tests)" % len(sw), site=c.span)
         return None
@@ -495,6 +518,8 @@ def observer_summary(ctx, rid, f, path, key, value, kind):
         idx_terms = [("field", ("downcast", mapped.result_term(), "Some"), "0")]
 
     def is_idx(t):
+        if then_some_var is not None:
+            return peel(t) == ("field", ("downcast", then_some_var, "Some"), "0")
         if scan.get("kind") == "partition_point":
             from pvrules import seqeval as _sq
             return peel(_sq._unwrap_payload(t, c.result_term(), b)) == c.result_term()
@@ -539,6 +564,19 @@ def observer_summary(ctx, rid, f, path, key, value, kind):
         sm = [(bi, t, v) for bi, t, v in st if t == SELF_FIELD("sum")]
         bk = [(bi, t, v) for bi, t, v in st if peel(t, transparent=["IndexMut::index_mut"])[0] == "call" or (t[0] == "deref" and is_call(t[1], "IndexMut::index_mut"))]
         okb = False
+        if not bk:
+            # `if let Some(cell) = self.counts.get_mut(i) { *cell += 1 }`: the cell exists exactly when i is a bucket index (counts has one cell per bound, C08.R7 `counts-len`)
+            for bi_, t_, v_ in st:
+                if not (t_[0] == "deref" and isinstance(t_[1], tuple) and len(t_[1]) == 3 and t_[1][0] == "field" and isinstance(t_[1][1], tuple) and t_[1][1][0] == "downcast" and t_[1][1][2] == "Some"):
+                    continue
+                g_ = peel(t_[1][1][1], transparent=[])
+                if not (is_call(g_, ["slice::get_mut", "Vec::get_mut"]) and peel(g_[2][0], transparent=["Deref::deref", "DerefMut::deref_mut", "Vec::as_mut_slice"]) == SELF_FIELD("counts")):
+                    continue
+                gs = [bj for bj in b.reachable_blocks() if (lambda si_: si_ and si_[0][0] == "discr" and peel(si_[0][1], transparent=[]) == g_)(b.switch_info(bj))]
+                okg = len(gs) == 1 and b.edge_dominates(gs[0], [tt for vv, tt in b.switch_info(gs[0])[1] if vv == 1][0], bi_)
+                okv = v_[0] == "field" and v_[1][0] == "binop" and v_[1][1] in ("AddWithOverflow", "Add") and const_int(v_[1][3]) == 1 and peel(v_[1][2]) == peel(t_)
+                okb = okg and okv and is_idx(g_[2][1]) and len([x for x in st if x[1] == t_]) == 1
+                break
         if len(bk) == 1:
             tgt = bk[0][1]
             im = tgt[1] if tgt[0] == "deref" else tgt
